@@ -52,6 +52,8 @@ def plan(tier, seed):
     nrand = 600 if tier == "quick" else 6000
     for s in range(0, nrand, 100):
         units.append({"kind": "rand2d", "start": s, "stop": s + 100, "w": 100 * 8})
+    if tier == "thorough":
+        units.append({"kind": "suite", "w": 40000})      # the repository's own tests with the contracts installed
     return units
 
 
